@@ -16,7 +16,8 @@ import (
 )
 
 var builderCoreKinds = []string{"Add", "Sub", "Neg", "Mul", "MulAcc", "Div", "DivUnchecked", "Inverse", "FromBinary",
-	"Xor", "Or", "And", "Select", "Lookup2", "IsZero", "AssertIsEqual", "AssertIsDifferent", "AssertIsBoolean", "Hint2"}
+	"Xor", "Or", "And", "Select", "Lookup2", "IsZero", "AssertIsEqual", "AssertIsDifferent", "AssertIsBoolean", "Hint2",
+	"ToBinary", "Cmp", "AssertIsLessOrEqual"} // the last three: Frontend/BuilderR1CSBits.v (tied, outside the proved fragment)
 
 func progInCore(p *Prog) bool {
 	for _, op := range p.Ops {
@@ -27,6 +28,20 @@ func progInCore(p *Prog) bool {
 			}
 		}
 		if !ok {
+			return false
+		}
+	}
+	return true
+}
+
+// on the curve fields a full-width decomposition has 254 digits: one Cmp is thousands of rows (and 40 s in the
+// Coq model); the bit-level calls are exercised at full width over F_47 and at small widths on BN254
+func progSmallBits(t Target, p *Prog) bool {
+	if t.Name == "tiny" {
+		return true
+	}
+	for _, op := range p.Ops {
+		if op.Kind == "Cmp" || op.Kind == "AssertIsLessOrEqual" || (op.Kind == "ToBinary" && op.N > 24) {
 			return false
 		}
 	}
@@ -50,6 +65,9 @@ func builderCase(t Target, p *Prog, thr int) (string, string) {
 			return "", "other"
 		}
 		nbw = d.NbWires()
+		if len(d.Instrs) > 450 {
+			return "", "too-large" // 254-bit decompositions (Cmp, AssertIsLessOrEqual on the curve fields): thousands of rows per case
+		}
 		for i := range d.Instrs {
 			d.Instrs[i].HintID = 0 // hint ids are 32-bit hashes (no nat literal); the comparison ignores them
 		}
@@ -71,19 +89,27 @@ func runBuilderTie(o *Opts, rep *Report) {
 	for pi := 0; pi < nprog; pi++ {
 		t := targets[pi%2]
 		cfg := GenCfg{MaxOps: 5 + 4*(pi%3), Kinds: builderCoreKinds}
+		if t.Name != "tiny" {
+			cfg.Kinds = builderCoreKinds[:len(builderCoreKinds)-2] // Cmp / AssertIsLessOrEqual only over F_47 (6 bits)
+		}
 		var p *Prog
 		if pi%4 == 3 {
 			// the general generator (motifs: sharing, cancellation, repeated operands), kept when inside the core
 			for try := 0; try < 40; try++ {
 				p = GenProg(rng, t.Field, GenCfg{MaxOps: 8})
-				if progInCore(p) {
+				if progInCore(p) && progSmallBits(t, p) {
 					break
 				}
 				p = nil
 			}
 		}
 		if p == nil {
-			p = GenProg(rng, t.Field, cfg)
+			for try := 0; try < 40; try++ {
+				p = GenProg(rng, t.Field, cfg)
+				if progSmallBits(t, p) {
+					break
+				}
+			}
 		}
 		nin := p.NbPub + p.NbSec
 		in := make([]*big.Int, nin)
